@@ -85,11 +85,16 @@ struct Script {
     client: IpPort,
     server: HostPort,
     protocol: i32,
+    /// "unavailable-once": the service answers the first call of this exchange with status UNAVAILABLE (it is being restarted) and is
+    /// back for any further call
+    #[serde(default)]
+    fault: String,
 }
 
 #[derive(Default)]
 struct MockState {
     reply: Reply,
+    fault_pending: bool,
     count: u64,
     seen: Option<Value>,
     /// `hx-grpc statusdata`: what the status service answers ({"has":bool,"d":{..}} in the vocabulary of spec/GrpcStatus.tla)
@@ -134,6 +139,9 @@ impl Discovery for Mock {
         let mut st = self.0.lock().unwrap();
         st.count += 1;
         st.seen = Some(empty_seen(st.count));
+        if std::mem::take(&mut st.fault_pending) {
+            return Err(tonic::Status::unavailable("service is restarting"));
+        }
         Ok(tonic::Response::new(pb::TargetsResponse { targets: st.reply.targets.iter().map(to_pb).collect() }))
     }
 }
@@ -152,6 +160,9 @@ impl Strategy for Mock {
         seen["server"] = addr_json(&r.server_address);
         seen["protocol"] = json!(r.protocol);
         st.seen = Some(seen);
+        if std::mem::take(&mut st.fault_pending) {
+            return Err(tonic::Status::unavailable("service is restarting"));
+        }
         let target = match st.reply.mode.as_str() {
             // the service picks the idx-th (1-based) candidate exactly as it received it
             "echo" => r.targets.get(st.reply.idx.wrapping_sub(1)).cloned(),
@@ -322,7 +333,8 @@ async fn run(inp: String, outp: String) {
     tokio::spawn(async move {
         let r = tonic::transport::Server::builder()
             .add_service(DiscoveryServer::new(Mock(s1)))
-            .add_service(StrategyServer::new(Mock(s2)))
+            // the strategy service accepts requests far beyond the default 4 MiB (long candidate lists with bulky metadata)
+            .add_service(StrategyServer::new(Mock(s2)).max_decoding_message_size(256 << 20))
             .add_service(StatusServer::new(Mock(s3)))
             .serve_with_incoming(tokio_stream::wrappers::TcpListenerStream::new(listener))
             .await;
@@ -348,6 +360,7 @@ async fn run(inp: String, outp: String) {
         {
             let mut st = shared.lock().unwrap();
             st.reply = sc.reply.clone();
+            st.fault_pending = sc.fault == "unavailable-once";
             st.count = 0;
             st.seen = None;
         }
